@@ -229,7 +229,7 @@ RANDOM = (" Binding T as well: seeded random programs (harness/g_exec.go) are ex
           "every recorded run is accepted or rejected event by event by spec/props/ExecTrace.tla, which computes the reference run from the "
           "program it finds in the trace; header forms of the property's tags are replayed from source bytes (Tags_Src.tla).")
 ADD = {
-    "C01": " A negative module (C01_TokenBound) has TLC refute 'every token consumes input'; tokeniser-failing fragments are injected at every position of a corpus; the structured sources of the byte-level grammars (C20_Src, Mix_Src, C06_Src) are parsed too.",
+    "C01": " A negative module (C01_TokenBound) has TLC refute 'every token consumes input'; tokeniser-failing fragments are injected at every position of a corpus; the structured sources of the byte-level grammars (C20_Src, Mix_Src, C06_Src) are parsed too; 14 long flat runs (prefix and postfix chains, conditionals, sums, interpolation parts, elseif branches) are parsed under a 64 MB stack limit.",
     "C02": RANDOM + " Loader family: every template-loading form x the library's own loaders x empty/missing/odd/non-string names.",
     "C03": " Byte-level families: " + SRC + "C03_Src.tla (lone delimiter characters next to constructs, verbatim sandwiches) and Mix_Src.tla (balanced "
            "sequences over all body-opening tags) are decided by that pipeline and rendered by the real code; delimiter-free templates of 12 sizes through the recording, memory and filesystem loaders.",
@@ -242,7 +242,7 @@ ADD = {
     "C15": " The value is also used as a number by a template (v + 0, ordering against 1.25) and compared with the coerced number.",
     "C16": " Every lookup is also written c[k] in a template (the template sees GetAttr's element, null on error); the Twig length filter and 'in' are compared with the traversal.",
     "C17": " Random programs with write and load faults are validated by C17_Trace.tla; 21 unparseable sources reached through every loading construct; load faults include templates whose contents cannot be read to the end; every program also runs through MemoryLoader and FilesystemLoader.",
-    "C18": " Gated runs: a blocking user function holds all callers at the same point inside Execute (nine gated templates); runs with the library's FilesystemLoader; values shared between callers; per-caller objects with pointer-receiver methods; calls that fail part-way inside a macro, capture, filter section or block().",
+    "C18": " Gated runs: a blocking user function holds all callers at the same point inside Execute (nine gated templates); runs with the library's FilesystemLoader; values shared between callers; per-caller objects with pointer-receiver methods; calls that fail part-way inside a macro, capture, filter section or block(); a caching loader that re-serves Template values.",
     "C19": " LexChan.tla has a buffered-channel variant (Cap) with its own negative configuration; all goroutines are counted at quiescence; bonus: LexChanInd.tla restates the protocol for streams of any length and Apalache proves its invariant inductive.",
     "C20": " Byte-level family C20_Src.tla: " + SRC + "block structure of every tag kind (acceptance and the position of the offending tag name); sources reach the parser through the library's own loaders in two thirds of the cases; two-word operators split by other white space; 8 multi-line templates cut at every byte, where the reported position must be one of the anchors computed from Lexer.tla's tokens.",
 }
